@@ -498,7 +498,7 @@ class FLAE:
         H = self.a * Db.T @ self.ref                                        # (eq. 42)
         W = self._P1Hx(H[0]) + self._P2Hy(H[1]) + self._P3Hz(H[2])          # (eq. 44)
         if method.lower() == 'eig':
-            V, D = np.linalg.eig(W)
+            V, D = np.linalg.eigh(W)    # W is symmetric by construction: real eigen-pairs
             q = D[:, np.argmax(V)]
             return q / np.linalg.norm(q)
         # Polynomial parameters                             (eq. 49)
